@@ -43,6 +43,7 @@ def _built_comprehensions(f) -> dict[str, ast.AST]:
 
 
 _SCAN_EXCEPTIONS = {
+    "Sequence._set_register": "collects the explicit phase-shift targets of the calls already executed on the mappable register (_calls); the calls of _to_build_calls are replayed on the resolved register right afterwards, where an unmapped target raises by itself",
     "Sequence.declared_channels": "starts from the channels of the schedule, which already reflect every regular call; only the deferred DMM/SLM configurations have to be added from _to_build_calls",
 }
 
@@ -284,6 +285,46 @@ def run(E: Engine, rep: Report, tier: str) -> dict:
         preds.append((subject, lits))
     ok = len(preds) >= 2 and len({p for _s, p in preds}) == 1
     rep.check(ok, "SIB", "Variable.__getitem__|same-bounds-for-int-and-sequence", "an integer key and every element of a sequence key are rejected by the same bounds predicate", f"Variable.__getitem__ bounds a single index and the elements of an index list differently: {[sorted(sym.show(x) for x in p) for _s, p in preds]} -- an item that the evaluated array accepts (e.g. [-size]) is refused for the variable, so the parametrized program cannot be written although the direct one is valid", E.where(vg))
+    # ---- round 5 (defects found by an independent audit, each repaired in /repo and kept from coming back) ----
+    # (1) a mapping given to build() resolves the register whatever it holds: `qubits` is tested with `is not None`
+    #     (an empty mapping is not "no mapping": build_register({}) raises, the direct construction has no register)
+    sr_calls = [l for l in Sb.calls("_set_register") if l.fn == build.short]
+    if not sr_calls:
+        raise AnalysisError("anchor: Sequence.build no longer calls _set_register")
+    for l in sr_calls:
+        lits_ = sym.conj_of(l.cond)
+        truthy = ("name", "qubits") in lits_
+        isnot = any(x[0] == "cmp" and x[1] == "IsNot" and ("name", "qubits") in (x[2], x[3]) and sym.NONE in (x[2], x[3]) for x in lits_)
+        rep.check(isnot and not truthy, "FLOW", "Sequence.build|qubits-mapping-tested-with-is-not-None", "the register is resolved under `qubits is not None`", "Sequence.build resolves the mappable register only when `qubits` is truthy: build(qubits={}) returns a sequence that still has the MappableRegister, where build_register({}) raises", E.where(build, l.node))
+    # (2) channel names given to align() are compared with declared_channels (which lists the DMM channels whose
+    #     configuration is stored for build time), like every other check -- not with the schedule
+    al = E.method(SEQ, "align")
+    al_raises = [l for l in S(E, al).logged("raise") if l.fn == al.short and any(mentions(x, "channels") for x in sym.conj_of(l.cond))]
+    if not al_raises:
+        raise AnalysisError("anchor: Sequence.align no longer rejects undeclared channel names")
+    for l in al_raises[:1]:
+        rep.check(mentions(l.cond, "declared_channels") and not any(t == ("attr", ("name", "self"), "_schedule") for t in sym.subterms(l.cond)), "FLOW", "Sequence.align|names-checked-against-declared_channels", "`set(channels) <= set(self.declared_channels)`",
+                  f"align() validates the channel names under `{sh(l.cond, 100)}`, i.e. against the schedule: on a parametrized sequence a DMM configured by a stored config_detuning_map / config_slm_mask call is declared but not yet in the schedule, so align('ryd', 'dmm_0') is refused although the same program with values is valid", E.where(al, l.node))
+    # (3) the SLM-mask DMM 'waiting for its first pulse' guard reads schedule state that stored (not yet executed)
+    #     pulses cannot have changed: it is evaluated only when the sequence is not parametrized
+    vch = E.method(SEQ, "_validate_channel")
+    wf_raises = [l for l in S(E, vch, inline=False).logged("raise") if mentions(l.cond, "_waiting_for_first_pulse")]
+    if not wf_raises:
+        raise AnalysisError("anchor: Sequence._validate_channel no longer has the SLM-mask DMM guard")
+    for l in wf_raises:
+        np_ = any(is_(x, "not self.is_parametrized()") is not None or is_(x, "self._building") is not None for x in sym.conj_of(l.cond))
+        rep.check(np_, "FLOW", "Sequence._validate_channel|slm-dmm-guard-only-when-not-parametrized", "raised under `not self.is_parametrized()`", "the 'add a pulse to a Global channel first' guard of the SLM-mask DMM is evaluated on a parametrized sequence, where Global pulses are stored instead of scheduled and never clear the flag: add_dmm_detuning / add / delay on that DMM raise although the direct program is valid", E.where(vch, l.node))
+    # (4) resolving a mappable register checks every qubit the recorded calls name explicitly: the targets of Local
+    #     channels AND of phase_shift / phase_shift_index
+    sreg = E.method(SEQ, "_set_register")
+    names_ = {x[3][1] if x[2][0] != "const" else x[2][1] for l in S(E, sreg, inline=False).log for x in sym.subterms(l.cond) if x[0] == "cmp" and x[1] == "Eq" and any(y[0] == "const" and isinstance(y[1], str) and y[1].startswith("phase_shift") for y in (x[2], x[3]))}
+    rep.check({"phase_shift", "phase_shift_index"} <= names_, "FLOW", "Sequence._set_register|phase-shift-targets-must-be-mapped", "recorded phase_shift / phase_shift_index targets are added to the used qubits", f"_set_register compares only the targets of Local channels with the mapped qubits (by-name scans found: {sorted(names_)}): a phase shift recorded for a qubit that the mapping leaves out survives build(qubits=...), where the direct construction raises", E.where(sreg))
+    # (5) the template accepts variables INSIDE a collection argument (target_index([0, var], ch): verify_variable and
+    #     _check_qubits_give_ids look into the collection), so build() has to evaluate the members of list/tuple
+    #     arguments too -- it evaluates top-level Parametrized arguments only
+    tb_args = [a[1] for l in tb for a in l.value[2] if a[0] == "star"]
+    deep = any(any(t[0] == "call" and t[1] == ("name", "isinstance") and len(t[2]) == 2 and any(y in (("name", "list"), ("name", "tuple"), ("name", "Collection"), ("name", "Iterable")) for y in sym.subterms(t[2][1])) for t in sym.subterms(a_)) for a_ in tb_args)
+    rep.check(deep, "FLOW", "Sequence.build|members-of-collection-arguments-built", "Parametrized members of list/tuple arguments are evaluated", "Sequence.build evaluates an argument only when the argument itself is Parametrized: a collection holding a variable item (target_index([0, var], ch), accepted by the template) reaches the new sequence unevaluated and build() raises 'Unknown variable', where the direct target_index([0, 2], ch) is valid", E.where(build))
     # a variable item is usable wherever the evaluated value is: the sequence collects targets in sets, so an item must
     # be hashable for every key kind Variable.__getitem__ produces.  VariableItem is a frozen dataclass (generated hash
     # over var and key): if __getitem__ can store a list key, the class has to define its own __hash__.
